@@ -8,8 +8,9 @@ Mirrored (line numbers of the repaired tree):
     parse (assumed to succeed: the harness only sends well-formed messages), unique name on the
     FIRST message (`clientConnected`, bus.py:174-181), Hello short-cut, `loseConnection` for a first
     call that is not addressed to the bus (processing continues), sender overwrite,
-    re-serialisation with the original serial (`_marshal(False)`: every field is kept, the body is an
-    opaque token here), `bus.messageReceived`
+    re-serialisation of the header with the original serial (`_marshal(False, rawBody=msg.rawBody)`:
+    every field is kept, the body bytes and their byte order are forwarded as received - an opaque
+    token here), `bus.messageReceived`
 * `Bus.messageReceived` (bus.py:227-262)                        -> `messageReceived`
     calls addressed to the bus go to the object handler; a message with a destination other than
     the bus is forwarded (`Bus.sendMessage`), a message without destination is routed through the
@@ -48,7 +49,7 @@ inductive MType where
   deriving DecidableEq, Repr, Inhabited
 
 /-- What an observer sees of a message.  `body` is an opaque token standing for
-(signature, decoded body). -/
+(byte order, signature, body bytes). -/
 structure Msg where
   mtype : MType
   serial : Nat
@@ -104,6 +105,9 @@ structure Conn where
   isConnected : Bool := true
   matchRules : List Nat := []
   deriving Repr, DecidableEq
+
+/-- `connectionAuthenticated`: no name yet, Hello not called, connected, no rules. -/
+def Conn.fresh : Conn := { uniqueName := none }
 
 /-- What the name functions (C13) did during a call or a disconnect, in program order. -/
 inductive Effect where
@@ -300,6 +304,11 @@ def stepMsg (cfg : Cfg ρ) (s : State ρ) (i : ConnId) (m : Msg) (op : BusOp ρ)
     let r := ensureNamed s i c
     stepNamed cfg r.1 i r.2.1 r.2.2 c.calledHello m op
 
+/-- `if proto.uniqueName: del self.clients[proto.uniqueName]` -/
+def dropClient (s : State ρ) : Option Name → State ρ
+  | some n => { s with clients := ddel n s.clients }
+  | none => s
+
 /-- `BusProtocol.connectionLost` -> `Bus.clientDisconnected`. -/
 def stepDisconnect (cfg : Cfg ρ) (s : State ρ) (i : ConnId) (effs : List Effect) : State ρ × Out :=
   match s.conns[i]? with
@@ -312,13 +321,10 @@ def stepDisconnect (cfg : Cfg ρ) (s : State ρ) (i : ConnId) (effs : List Effec
     -- for busName in proto.busNames: self.dbus_ReleaseName(busName, proto.uniqueName)
     let r := applyEffects cfg s2 effs
     -- if proto.uniqueName: del self.clients[proto.uniqueName]
-    let s4 : State ρ := match c.uniqueName with
-      | some n => { r.1 with clients := ddel n r.1.clients }
-      | none => r.1
-    (s4, { deliveries := r.2 })
+    (dropClient r.1 c.uniqueName, { deliveries := r.2 })
 
 def step (cfg : Cfg ρ) (s : State ρ) : Event ρ → State ρ × Out
-  | .connect => ({ s with conns := s.conns ++ [{}] }, {})
+  | .connect => ({ s with conns := s.conns ++ [Conn.fresh] }, {})
   | .msg i m op => stepMsg cfg s i m op
   | .disconnect i effs => stepDisconnect cfg s i effs
 
@@ -338,6 +344,7 @@ end
 `router.Rule.match`, restricted to the keys that loop evaluates). -/
 
 structure SimpleRule where
+  mtype : Option MType := none
   iface : Option Name := none
   member : Option Name := none
   path : Option Name := none
@@ -345,6 +352,7 @@ structure SimpleRule where
   deriving Repr, DecidableEq
 
 def SimpleRule.holds (r : SimpleRule) (m : Msg) : Bool :=
+  (match r.mtype with | some v => m.mtype = v | none => true) &&
   (match r.iface with | some v => m.iface = some v | none => true) &&
   (match r.member with | some v => m.member = some v | none => true) &&
   (match r.path with | some v => m.path = some v | none => true) &&
